@@ -74,9 +74,9 @@ func vCheckDecoded(m *Message, rawLen int) {
 
 // verifC12Raw: the whole message is symbolic (header, counts, names, pointers, RDATA).
 func verifC12Raw() {
-	s := 5
+	s := 4
 	if vTier() > 0 {
-		s = 8
+		s = 7
 	}
 	n := vInt(0, 12+s)
 	b := vBytes(n)
